@@ -94,10 +94,11 @@ class AList:
     is_list = True
     pyclass = "list"
 
-    def __init__(self, n, elem, keep=None, rev=False):
+    def __init__(self, n, elem, keep=None, span=None):
         self.n = n
         self.elem = elem
         self.keep = keep
+        self.span = span
 
 
 class Signal:
@@ -687,6 +688,9 @@ class Exec:
     def list_index(self, st, n, idx, node):
         """python list index semantics for a list of length n (python int or z3 Int term):
         returns normalised index, emitting the IndexError obligation"""
+        if isinstance(idx, vals.SOpt):
+            self.need(st, znot(idx.none), "TypeError", node)
+            idx = idx.v
         if isinstance(idx, (SFloat, SNum, float)) or idx is None or isinstance(idx, (str, Tmpl, Ref, SV)):
             self.need(st, False, "TypeError", node)
             raise PathDead()
@@ -772,6 +776,18 @@ class Exec:
         self.ctx.oblige(st, "frame-read", f"{_src(node)[:70] if node is not None else what}", goal, node)
         st.assume(goal)
 
+    def note_series_read(self, st, ser, j, key, node):
+        """frame-read-own: a key of the indicator's own namespace read at the index being computed
+        must have been written earlier in the same computation (DESIGN.md section 3.6)"""
+        main = vals.str_split_dot(key)[0] if vals.str_contains_dot(key) else key
+        ser.reads.append((j, main))
+        if not any(str(f.get("__func__", "")).endswith("._calculate_reading") for f in st.frames):
+            return
+        if main in ser.own_keys and main not in ser.written_now and ser.write_index is not None:
+            goal = to_int_term(j) != to_int_term(ser.write_index)
+            self.ctx.oblige(st, "frame-read-own", f"{main!r} @ {_src(node)[:60] if node is not None else ''}", goal, node)
+            st.assume(goal)
+
     def clamp_slice(self, n, lo, hi):
         """CPython slice bounds for step 1 on a list of length n -> (lo', hi') with 0<=lo',hi'<=n"""
         nt = z3.IntVal(n) if isinstance(n, int) else n
@@ -788,6 +804,12 @@ class Exec:
     def getslice(self, obj, lo, hi, step, st, node):
         if step is not None and step != 1:
             raise Unsupported("slice step")
+        def unopt(b):
+            if isinstance(b, vals.SOpt):
+                # slice bound None is legal python; an Optional bound is split by the caller
+                raise Unsupported("optional slice bound")
+            return b
+        lo, hi = unopt(lo), unopt(hi)
         for b in (lo, hi):
             if isinstance(b, (SFloat, SNum, float, SV)):
                 self.need(st, False, "TypeError", node)
